@@ -31,6 +31,7 @@ def run(s):
     K.story_grid(s, 3, layouts=('bare',), pretties=(False,), kmax=3, full=False)
     K.story_grid(s, 3, layouts=('before',), pretties=(True,), kmax=2, full=False, names=K.LONG_NAMES)
     K.story_grid(s, 4, layouts=('before',), pretties=(False,), kmax=2, full=False, names=K.HOSTILE_NAMES_C)
+    K.story_grid(s, 4, layouts=('before',), pretties=(False,), kmax=2, full=False, names=K.HOSTILE_NAMES_D)
     if s.tier == 'quick':
         K.story_grid(s, 4, layouts=('none', 'between', 'everywhere'), kmax=3, full=False)
         K.story_grid(s, 4, layouts=('before',), pretties=(False,), kmax=2, full=False, names=K.HOSTILE_NAMES)
